@@ -1,7 +1,7 @@
 (* Wire.v -- decoding of requests and encoding of answers (integers and lists
    only), and the dispatcher run : sx -> sx that the extracted driver and the
    vm_compute cross-check both call. *)
-From SV Require Export Model.Num Model.Expr.
+From SV Require Export Model.Num Model.Expr Model.Heap.
 Open Scope Q_scope.
 
 Fixpoint sx_eqb (x y : sx) : bool :=
@@ -128,6 +128,45 @@ Definition bad : sx := L [A 9%Z].
 Fixpoint iter_derivate (k : nat) (s : seg) : seg :=
   match k with O => s | S n => iter_derivate n (derivate s) end.
 
+(* ---------- heap histories ---------- *)
+Definition d_bop (x : sx) : option bop :=
+  match x with
+  | A 1%Z => Some BOr | A 2%Z => Some BAnd | A 3%Z => Some BSub | A 4%Z => Some BXor | _ => None
+  end.
+Definition d_hop (x : sx) : option hop :=
+  match x with
+  | L [A 0%Z; s] => option_map ONew (d_shape s)
+  | L [A 1%Z; v] => option_map OCopy (d_nat v)
+  | L [A 2%Z; v] => option_map ONot (d_nat v)
+  | L [A 3%Z; o; v; w] =>
+      match d_bop o, d_nat v, d_nat w with Some o, Some v, Some w => Some (OBin o v w) | _, _, _ => None end
+  | L [A 4%Z; v; p] =>
+      match d_nat v, d_point p with Some v, Some p => Some (OMove v p) | _, _ => None end
+  | L [A 5%Z; v; p] =>
+      match d_nat v, d_point p with Some v, Some p => Some (OScale v (px p) (py p)) | _, _ => None end
+  | L [A 6%Z; v; p] =>
+      match d_nat v, d_point p with Some v, Some p => Some (ORotate v (px p) (py p)) | _, _ => None end
+  | L [A 7%Z; v; p; b] =>
+      match d_nat v, d_point p, d_bool b with Some v, Some p, Some b => Some (OContains v p b) | _, _, _ => None end
+  | L [A 8%Z; v] => option_map OFloat (d_nat v)
+  | _ => None
+  end.
+Definition e_hcomp (c : hcomp) : sx :=
+  match c with HCS c => L [A 2%Z; e_nat c] | HCC cs => L [A 3%Z; e_list e_nat cs] end.
+Definition e_hshape (s : hshape) : sx :=
+  match s with
+  | HEmpty => L [A 0%Z]
+  | HWhole => L [A 1%Z]
+  | HC c => e_hcomp c
+  | HD cs => L [A 4%Z; e_list e_hcomp cs]
+  end.
+Definition e_hcurve (c : hcurve) : sx :=
+  L [e_list (e_list e_nat) (hsegs c);
+     match hcache c with None => L [] | Some g => L [e_jordan g] end].
+Definition e_hstate (st : hstate) : sx :=
+  L [e_list e_point (hpts (fst st)); e_list e_hcurve (hcurves (fst st)); e_list e_hshape (snd st);
+     e_bool (heap_wf (fst st))].
+
 (* ---------- dispatcher ---------- *)
 Definition run (req : sx) : sx :=
   match req with
@@ -213,6 +252,24 @@ Definition run (req : sx) : sx :=
           match d_Q q with
           | Some q => match norm_coord q with Some r => L [A 0%Z; e_Q r] | None => L [A 2%Z] end
           | None => bad end
+      | 50%nat, [ops] =>
+          match d_listx d_hop ops with
+          | Some ops => e_res e_hstate (run_history (hempty, []) ops)
+          | None => bad end
+      | 51%nat, [ops; v; p; b] =>
+          match d_listx d_hop ops, d_nat v, d_point p, d_bool b with
+          | Some ops, Some v, Some p, Some b =>
+              e_res (fun st : hstate => e_bool (snd (h_contains_point (fst st) (var st v) p b)))
+                    (run_history (hempty, []) ops)
+          | _, _, _, _ => bad end
+      | 52%nat, [ops; v] =>
+          match d_listx d_hop ops, d_nat v with
+          | Some ops, Some v =>
+              e_res (fun st : hstate =>
+                       e_list (fun c => let g := snd (h_float (fst st) c) in L [e_bool (jordan_pos g); e_jordan g])
+                              (hcurves_of (var st v)))
+                    (run_history (hempty, []) ops)
+          | _, _ => bad end
       | 41%nat, [x; y; z] =>
           match d_Z x, d_Z y, d_Z z with
           | Some n, Some m, Some d =>
